@@ -36,16 +36,20 @@ repeated narrowing; the deep semantics of Custom paths; the shape of the verifie
 and header handling; cleanup and error paths inside multi-step operations; numeric and positional bookkeeping
 across recursion), and for this round the checks *as they stood before the round* were additionally
 run against every change aimed at them (`SM_VERIF_SRC=<old checkout> tools/seedmatrix.sh`, results in
-`out/seedattr_r6`), so that "would have been missed" is measured, not judged. Every change was confirmed here
+`out/seedattr_r6`), so that "would have been missed" is measured, not judged. Round 7: eight areas again (the key-binding JWT end to end; errors turned into successes or defaults; the JSON
+serialization end to end; string and byte-level handling; well-meant strictness or leniency that goes slightly too far;
+the issuer's payload assembly; the verifier's disclosure bookkeeping; changes outside the three big files including
+Cargo features) — 12 of its 24 would have been missed by the pre-round checks of the property aimed at. Every change was confirmed here
 (`tools/confirm_seed.sh` in a scratch worktree: demo passes without the change, 146/146 suite tests
 pass with it, demo fails with it) and run against all 16 quick checks in scratch copies
 (`tools/seedmatrix.sh`; `/repo` itself is never modified). Kept under `/verif/seeded/<name>/`
 (`patch.diff`, `demo.rs`, `meta.json`).
 
-**%d changes kept. In the matrix runs all but three were reported by at least one quick check. The three
+**%d changes kept. In the matrix runs all but four were reported by at least one quick check. The four
 that no check reported — R4L_r4_seed_b (a holder panic reachable only through a single-member selection),
 R5U_r5_seed_b (a verifier expecting a Unicode audience also accepts its percent-encoded twin) and
-R5R_r5_seed_b (a holder table keyed by a textual path that two different objects share) — each led to the
+R5R_r5_seed_b (a holder table keyed by a textual path that two different objects share), R7H_r7_seed_a (unbounded JSON
+recursion that overflows a 2 MiB stack but not the worker's 8 MiB one) — each led to the
 repair described in its note and is reported by the named checks now. Benign, property-preserving
 variations (`/verif/benign/*.diff`: output order, decoy count, salt length, pretty-printed JSON, a stricter
 verifier, a typ header, sorted payload keys, extra KB-JWT claims) were run through the same matrix and raise
